@@ -39,7 +39,7 @@ type Param struct {
 	S     map[string]string
 }
 
-func (p Param) I(k string) int    { return p.V[k] }
+func (p Param) I(k string) int      { return p.V[k] }
 func (p Param) Str(k string) string { return p.S[k] }
 
 var Registry = map[string]*Scenario{}
@@ -49,14 +49,14 @@ func Register(sc *Scenario) { Registry[sc.Name] = sc }
 // World is the closed system of one execution: one RPC server behind an http.Server on an
 // in-memory network, plus helpers to create clients on it.
 type World struct {
-	S      *vsched.Sched
-	Net    *vnet.Net
-	RPC    *jsonrpc.RPCServer
-	HTTP   *http.Server
-	Ctx    context.Context
-	Cancel context.CancelFunc
-	HC     *http.Client
-	mu     sync.Mutex
+	S       *vsched.Sched
+	Net     *vnet.Net
+	RPC     *jsonrpc.RPCServer
+	HTTP    *http.Server
+	Ctx     context.Context
+	Cancel  context.CancelFunc
+	HC      *http.Client
+	mu      sync.Mutex
 	closers []func()
 	connSeq int
 	Mux     *http.ServeMux
